@@ -50,8 +50,12 @@ def switchesOf (j : Json) : Except String Switches := do
 def glueSwitchesOf (j : Json) : Except String GlueSwitches := do
   let a : Option Bool ← optArg j "wrapsSingleSigner"
   let b : Option Bool ← optArg j "wrapsSingleResponseBundle"
+  let c : Option Bool ← optArg j "sortsRequestBundlesByTriple"
+  let d : Option Bool ← optArg j "sortsResponseBundles"
   pure { wrapsSingleSigner := a.getD pyGlueSwitches.wrapsSingleSigner,
-         wrapsSingleResponseBundle := b.getD pyGlueSwitches.wrapsSingleResponseBundle }
+         wrapsSingleResponseBundle := b.getD pyGlueSwitches.wrapsSingleResponseBundle,
+         sortsRequestBundlesByTriple := c.getD pyGlueSwitches.sortsRequestBundlesByTriple,
+         sortsResponseBundles := d.getD pyGlueSwitches.sortsResponseBundles }
 
 def fileOracleOf (j : Json) : Except String FileOracle := do
   let b : Bytes ← arg j "bytes"
